@@ -566,6 +566,10 @@ func (p *Pair) FailWith(dir int, chunk []byte, cls string) {
 	p.Conn[receiver(dir)].FeedWithErr(chunk, netErr(cls))
 }
 
+// ClearErr removes the network error queued for the receiver of direction dir: the error was
+// temporary (a read deadline that fired, …) and the stream goes on.
+func (p *Pair) ClearErr(dir int) { p.Conn[receiver(dir)].FeedErr(nil) }
+
 // Reader returns the reader of direction dir.
 func (p *Pair) Reader(dir int) *Reader { return p.Rd[dir] }
 
